@@ -1,6 +1,7 @@
 package props
 
 import (
+	"github.com/q191201771/lal/pkg/rtsp"
 	"bytes"
 	"fmt"
 	"os"
@@ -570,6 +571,10 @@ func init() {
 }
 
 func c06Run(c *fw.Ctx, i int) {
+	// premise: this property is about what the remuxers produce, not about what a full write queue
+	// drops (C15). The publisher runs far ahead of real time, so the interleaved consumer's queue
+	// (1024 packets by default) is made large enough never to overflow.
+	rtsp.VerifSetCmdWriteChanSize(200000)
 	sp := c06Spec(c, i)
 	r := c.SubRng("es")
 	es := gen.BuildEs(r, 1, sp)
@@ -619,6 +624,7 @@ func c06Run(c *fw.Ctx, i int) {
 	sent := 0
 	waitProcessed := func() bool { return srv.WaitFor(10*time.Second, func() bool { return hook != nil && hook.Count() >= sent }) }
 	udpBefore := udpErrors()
+	burst := 0
 	var joinWg sync.WaitGroup
 	for k, m := range msgs {
 		for _, cn := range cons {
@@ -658,9 +664,33 @@ func c06Run(c *fw.Ctx, i int) {
 			return
 		}
 		sent++
+		burst += len(m.Payload)
 		if k%16 == 15 {
 			waitProcessed()
 			time.Sleep(2 * time.Millisecond) // keep UDP bursts small
+		}
+		if burst > 400000 {
+			// premise, not verdict: lal queues at most 1024 RTP packets per interleaved consumer and
+			// drops when the queue is full (that behaviour is C15's subject); a publisher running far
+			// ahead of real time must let the consumers drain before the next burst
+			burst = 0
+			waitProcessed()
+			last, still := -1, 0
+			for w := 0; w < 400 && still < 5; w++ {
+				n := 0
+				for _, cn := range cons {
+					if cn.rtsp != nil {
+						n += cn.rtsp.NumPackets()
+					}
+				}
+				if n == last {
+					still++
+				} else {
+					still = 0
+				}
+				last = n
+				time.Sleep(5 * time.Millisecond)
+			}
 		}
 	}
 	joinWg.Wait()
